@@ -577,9 +577,20 @@ func (g *G) pair(t *Type, d int) (expr, expr) {
 var intBinOps = []string{"+", "-", "*", "&", "|", "^", "&^"}
 
 func (g *G) genInt(t *Type, d int) expr {
-	switch g.n(0, 11, "intForm") {
+	switch g.n(0, 12, "intForm") {
 	case 0, 1:
 		return g.leaf(t)
+	case 12:
+		// an unparenthesised operator chain: grouping is decided by precedence and
+		// left-associativity alone (the same rules in .wa, .wz and Go)
+		n := g.n(3, 5, "chainLen")
+		ops := []string{"+", "-", "*", "&", "|", "^", "&^", "-", "*"}
+		out := g.nonConst(t).E
+		for i := 1; i < n; i++ {
+			out = tf("%s %s %s", out, ops[g.n(0, len(ops)-1, "chainOp")], g.nonConst(t).E)
+		}
+		g.feat("operator-chain")
+		return expr{tf("(%s)", out), false}
 	case 2, 3:
 		a, b := g.pair(t, d)
 		g.feat("arith-int")
